@@ -654,6 +654,61 @@ func areEpicDepsComplete(epicID string, graph *Graph) bool {
 	return true
 }
 
+// hasWaitCycle reports whether the effective waits-for relation has a cycle:
+// a task waits for its own dependencies and, through its epic's dependencies,
+// for every task of the epics its epic depends on. Such a cycle can never make
+// progress even though task-level and epic-level edges are each acyclic.
+func hasWaitCycle(graph *Graph) bool {
+	members := map[string][]string{}
+	for id, task := range graph.Tasks {
+		if !task.IsEpic && task.EpicID != "" {
+			members[task.EpicID] = append(members[task.EpicID], id)
+		}
+	}
+	waits := func(id string) []string {
+		task := graph.Tasks[id]
+		var out []string
+		for dep := range graph.Deps[id] {
+			if other, ok := graph.Tasks[dep]; ok && !other.IsEpic {
+				out = append(out, dep)
+			}
+		}
+		if task.EpicID != "" {
+			for epicDep := range graph.Deps[task.EpicID] {
+				if other, ok := graph.Tasks[epicDep]; ok && other.IsEpic {
+					out = append(out, members[epicDep]...)
+				}
+			}
+		}
+		return out
+	}
+	const (
+		active = 1
+		done   = 2
+	)
+	color := map[string]int{}
+	var visit func(id string) bool
+	visit = func(id string) bool {
+		color[id] = active
+		for _, next := range waits(id) {
+			if color[next] == active {
+				return true
+			}
+			if color[next] == 0 && visit(next) {
+				return true
+			}
+		}
+		color[id] = done
+		return false
+	}
+	for id, task := range graph.Tasks {
+		if !task.IsEpic && color[id] == 0 && visit(id) {
+			return true
+		}
+	}
+	return false
+}
+
 // hasCycle returns true if adding a dependency from -> to would create a cycle.
 // Uses DFS to check if 'from' is reachable from 'to' (which would mean to -> ... -> from exists).
 func hasCycle(graph *Graph, from, to string) bool {
